@@ -27,8 +27,8 @@ RULE = ("case = one tasked attempt (one call of the real Sensor.collectObservati
         "constraint's boundary (delta 1e-9..3e-2 of the natural unit beyond the epsilon band; both sides counted in coverage.focus), "
         "at the azimuth seam (due north), near the zenith, or at random; prior boresight anywhere, last-tasked time 0..k steps back. "
         "non-trivial = distinct attempt in which at least one boolean constraint comparison lay outside its epsilon band. "
-        "Bands: angles 1e-9 rad / cos(el) conditioning; range 1e-9 km + 1e-12 rho; line of sight 1e-9 km + 1500 eps q (1+rmax/sep)/(2Re); "
-        "slew 1e-9 + 3e-16/sin(theta) (arccos conditioning). WIDENED for documented approximations: (a) space sensors: elevation/azimuth "
+        "Bands: angles 2e-9 rad / cos(el) conditioning; range 1e-9 km + 3e-11 rho; line of sight 1e-9 km + 1500 eps q (1+rmax/sep)/(2Re); "
+        "slew 2e-9 + 3e-16/sin(theta) (arccos conditioning). WIDENED for documented approximations: (a) space sensors: elevation/azimuth "
         "mask, rectangular FoV and Earth-limb bands grow by the actual angle between the geodetic vertical of the sub-satellite point and "
         "the geocentric radial (<= 3.4e-3 rad; x tan(el) for azimuth); (b) Sun exclusion: 2e-3 rad low-precision-Sun model band + "
         "range/|r_sun| parallax (target-to-Sun used instead of sensor-to-Sun); umbra, site darkness: 2e-3 rad (+Re/AU); visual magnitude: "
@@ -72,7 +72,7 @@ SUN_CONE = math.pi / 12
 GAL_CONE = math.pi / 30
 DUSK = math.pi / 12
 SUN_BAND = 2e-3
-ANG = 1e-9
+ANG = 2e-9   # 100x the worst noise-free angular deviation between the two SEZ chains (2.1e-11 rad over 1.2e5 targets)
 BIG = 1e9
 
 REASONS = {
@@ -249,7 +249,7 @@ def evaluate(frame, P, tgt_eci, vcs, refl, sez_p, sun, slew=None):
     az, el, h = g.azel_stable(sez)
     defl = frame.defl if P.space else 0.0
     out = {}
-    rb = 1e-9 + 1e-12 * rho
+    rb = 1e-9 + 3e-11 * rho   # 100x the worst observed range deviation (2.8e-13 relative, 2.9e-11 km absolute)
     out["min_range"] = (status(rho - P.min_range, rb), rho - P.min_range)
     out["max_range"] = (1, BIG) if math.isinf(P.max_range) else (status(P.max_range - rho, rb), P.max_range - rho)
     out["los"] = los_eval(rt, frame.rs)
@@ -590,8 +590,9 @@ def postcondition(ctx, scene, att, old, res, w):
             e += [float(o.range_km) - geo["rho"], float(o.range_rate_km_p_sec) - geo["rr"]]
         e = np.array(e)
         if P.noise_off:
-            # noise sigma 1e-10 (10 sigma = 1e-9) + rounding of two independent SEZ chains (calibrated, see coverage.calibration)
-            tol = [2e-9 + 1e-9 / h, 2e-9 + 3e-16 / max(h, 1e-8), 2e-9 + 1e-11 * geo["rho"], 2e-9]
+            # 10 sigma of the residual noise (sigma 1e-10 => 1e-9) + 100x the worst deterministic deviation of the two independent
+            # chains measured with noisy=False on 1.2e5 targets: az*cos(el) 1.6e-11, el 2.1e-11 rad, range 2.8e-13 rel, range rate 1.1e-12 km/s
+            tol = [1e-9 + 2e-9 / h, 3e-9 + 3e-16 / max(h, 1e-8), 2e-9 + 3e-11 * geo["rho"], 1e-9 + 1.1e-10]
             if h > 1e-6:
                 _CAL["az"] = max(_CAL["az"], abs(e[0]) * h)
             _CAL["el"] = max(_CAL["el"], abs(e[1]) / (1 + 1.5e-7 / max(h, 1e-8)))
@@ -909,9 +910,9 @@ def _place_primary(rng, scene, fr, focus, side, vcs, refl):
             el = _pick_el(rng, P)
             focus = "random"
     elif focus == "range_min" and P.min_range > 1.0:
-        rho = P.min_range * (1 + side * (1e-11 + 10 ** rng.uniform(-9, -1.5)))
+        rho = P.min_range * (1 + side * (1e-10 + 10 ** rng.uniform(-9, -1.5)))
     elif focus == "range_max" and math.isfinite(P.max_range):
-        rho = P.max_range * (1 - side * (1e-11 + 10 ** rng.uniform(-9, -1.5)))
+        rho = P.max_range * (1 - side * (1e-10 + 10 ** rng.uniform(-9, -1.5)))
     elif focus == "radar" and P.kind != "optical" and P.radar_max_range(vcs) < 80000:
         rho = P.radar_max_range(vcs) * (1 - side * (3e-9 + 10 ** rng.uniform(-8, -1.5)))
     elif focus == "los" and not P.space:
@@ -1056,7 +1057,7 @@ def gen_attempt(rng, scene, k, focus, side, first=False):
             else:
                 focus_r = "random"
     if focus_r != "slew":
-        if rng.random() < 0.8 and budget > 0:
+        if rng.random() < 0.9 and budget > 0:
             bore = _dir_at(pu, rng.uniform(0, 0.9) * min(budget, math.pi), rng)
         else:
             bore = _unit_rand(rng)
@@ -1142,7 +1143,7 @@ def run(ctx):
                 att, first = att0, True
             else:
                 first = False
-                k = rng.choice([0, 1, 1, 2, 2, 3, 3, 4, 5, 6])
+                k = rng.choice([0, 1, 1, 1, 2, 2, 2, 3, 3, 3, 4, 4, 5, 6])
                 focus, side = rng.choice(fl), rng.choice([1, -1])
                 if desc.get("sun_mode") == "twilight" and rng.random() < 0.5:
                     k, focus, side = desc["sun_k"], "random", 1
